@@ -6,7 +6,8 @@ from .. import sessprop, pipeline, replay as rp
 
 KINDS = {'ev', 'wr', 'wrf', 'call', 'stop', 'escape', 'hang'}
 DROP = ('headers', 'msg', 'url', 'len', 'key', 'i', 'at', 'sock', 'keylen', 'custom', 'rest', 't')
-CALLS = {"close": ["close"], "send": ["send_text", "x"]}
+# (a compressible text: sent on both connections it shows a deflate context that survived the reconnect)
+CALLS = {"close": ["close"], "send": ["send_text", "hello hello hello hello hello hello"]}
 
 
 def conn_of(h):
@@ -82,7 +83,7 @@ def to_object(i, log_f, log_c):
 
 def run(tier, seed):
     r = pipeline.Run('C17', tier, seed)
-    r.rule = ('every pair (previous connection history with its ending, next connection history) from spec/GenC17.tla: 22 endings (mid HTTP '
+    r.rule = ('every pair (previous connection history with its ending, next connection history) from spec/GenC17.tla: 23 endings (mid HTTP '
               'header, mid frame header, mid payload, mid fragmented text/binary, mid code point, mid compression context, while closing, closed by '
               'either side, rejected, connect failure, close()/send called at the terminal event of a failed / rejected / dropped attempt, protocol error, invalid UTF-8, abandoned by break / exception / generator.close() / with-block) '
               'x 8 continuations, on one object via connect() twice and via persist(); compared with a fresh object; non-trivial = all pairs')
